@@ -219,6 +219,10 @@ class Program:
             for m in c["mir"]:
                 self.mir[f"{cname}::{m['path']}"] = m
 
+    def adt(self, path):
+        """Definition of a struct / enum of the library crate by its (crate-relative) type path, generic arguments ignored."""
+        return self.adts.get(str(path).split("<", 1)[0].strip())
+
     def lib_fn(self, path):
         """Function of the library crate by crate-relative path (None if missing)."""
         return self.fns.get(f"{LIB}::{path}")
